@@ -103,6 +103,17 @@ class ExprMixin:
         raise Unsupported(f'constant {c!r}')
 
     def e_Name(self, e, st, exits):
+        alias = st.env.get('$alias:' + e.id)
+        if alias is not None and isinstance(alias.t, ast.Attribute) and not self.spec_mode:
+            # a local that names a container living in an object's field (x = obj.d): read the field as it is now -
+            # callees may have updated that same object in the meantime
+            try:
+                res = list(self.ev(alias.t, st, []))
+            except Unsupported:
+                res = []
+            if len(res) == 1 and res[0][0] is st and res[0][1].ty == st.env[e.id].ty:
+                yield st, res[0][1]
+                return
         yield st, self.lookup(e.id, st, e)
 
     def lookup(self, name, st, node=None):
@@ -307,6 +318,10 @@ class ExprMixin:
             return V(STR, self.UF('repr_str', z3.StringSort(), z3.StringSort())(v.t))
         if v.ty is INT:
             return V(STR, self.UF('str_of_int', z3.IntSort(), z3.StringSort())(v.t))
+        if isinstance(v.ty, TOpt) and not repr_:
+            # str(None) is 'None'; otherwise the text of the value
+            inner = self.to_str(V(v.ty.inner, v.ty.val(v.t)))
+            return V(STR, z3.If(v.ty.is_some(v.t), inner.t, z3.StringVal('None')))
         if v.ty is EXC:
             # the message of an exception instance: exceptions are modelled by their class only, so nothing is known about it
             return V(STR, z3.Const(fresh_name('excmsg'), z3.StringSort()))
@@ -340,15 +355,15 @@ class ExprMixin:
             if z3.is_true(go):
                 yield from rest
                 continue
-            if len(rest) == 1 and (rest[0][1].ty == a.ty) and not isinstance(a.ty, TPy):
+            if len(rest) == 1 and (rest[0][1].ty == a.ty) and not isinstance(a.ty, TPy) and \
+                    (self.spec_mode or _same_heap(rest[0][0], st2)):
                 # merge: value = If(go, rest, a); facts learnt on the rest-path become implications
+                # (an operand with a heap effect - a call that modifies something - is not merged: the paths fork below)
                 rst, rv = rest[0]
                 extra = rst.pc[lc:]
                 m = st2
                 for f in extra:
                     m.assume(z3.Implies(go, f))
-                if not _same_heap(rst, st2):
-                    raise Unsupported('boolean operand with heap effect')
                 yield m, V(a.ty, z3.If(go, rv.t, a.t))
                 continue
             if self.spec_mode:
